@@ -2,7 +2,9 @@ package worlds
 
 import (
 	"bytes"
+	"context"
 	"crypto/tls"
+	"errors"
 	"fmt"
 	"net"
 	"net/url"
@@ -96,6 +98,7 @@ type h2World struct {
 	proxyDoneStep int
 	dialed        bool
 	scSys         *simnet.Conn
+	stallDial     chan struct{} // non-nil: the upstream dial never completes (until the channel is closed)
 	ccSys         *simnet.Conn
 }
 
@@ -118,7 +121,26 @@ func (hw *h2World) start(factories []h2.StreamProcessorFactory) *h2World {
 		hw.mu.Lock()
 		hw.dialed = true
 		hw.mu.Unlock()
+		if hw.stallDial != nil {
+			// an upstream that accepts the connection and then stays silent
+			<-hw.stallDial
+			return nil, errors.New("dial abandoned by the harness")
+		}
 		return hw.sc, nil
+	}
+	h2.VerifDialContext = func(ctx context.Context, network, addr string, cfg *tls.Config) (net.Conn, error) {
+		if hw.stallDial != nil {
+			hw.mu.Lock()
+			hw.dialed = true
+			hw.mu.Unlock()
+			select {
+			case <-ctx.Done():
+				return nil, ctx.Err()
+			case <-hw.stallDial:
+				return nil, errors.New("dial abandoned by the harness")
+			}
+		}
+		return h2.VerifDial(network, addr, cfg)
 	}
 	h2.VerifOrder = func(m int) []int {
 		perm := make([]int, m)
@@ -149,7 +171,11 @@ func (hw *h2World) done() (bool, error) {
 }
 
 func (hw *h2World) cleanup() {
-	h2.VerifDial, h2.VerifOrder, h2.VerifYieldHook = nil, nil, nil
+	h2.VerifDial, h2.VerifDialContext, h2.VerifOrder, h2.VerifYieldHook = nil, nil, nil, nil
+	if hw.stallDial != nil {
+		close(hw.stallDial)
+		hw.stallDial = nil
+	}
 	hw.k.ReleaseAll()
 	select {
 	case <-hw.closing:
@@ -280,7 +306,7 @@ func runH2(k *kernel.K, focus string) {
 				ops = append(ops, d)
 				if push != nil && pushAt == j+1 && !d.End {
 					ops = append(ops, push)
-				ops = append(ops, pushedResponse(k, push)...)
+					ops = append(ops, pushedResponse(k, push)...)
 				}
 				if w.Chance(1, 8) {
 					_, pp := true, http2.PriorityParam{StreamDep: uint32(w.Draw(3) * 2), Weight: uint8(w.Draw(255))}
